@@ -495,6 +495,11 @@ nni_aio_start(nni_aio *aio, nni_aio_cancel_fn cancel, void *data)
 	} else if (aio->a_use_expire && aio->a_expire <= nni_clock()) {
 		timeout = true;
 	}
+	// An absolute expiration applies to this operation only.  (A start
+	// that is refused below, or a sleep that wakes up by itself, does not
+	// pass through nni_aio_finish, and would otherwise leave it armed for
+	// the next operation on this aio.)
+	aio->a_use_expire = false;
 	if (!aio->a_sleep) {
 		aio->a_expire_ok = false;
 	}
